@@ -1109,16 +1109,18 @@ class ConfigInformation:
                 "is_folder": value.is_folder,
             }
 
-        elif isinstance(value, (int, float, str)):
-            return value
-
         elif isinstance(value, Enum):
+            # (before int/str: the members of an IntEnum or of a str-based
+            # enumeration are ints/strings too)
             return {
                 "type": "enum",
                 "module": value.__class__.__module__,
                 "enum": value.__class__.__qualname__,
                 "value": value.name,
             }
+
+        elif isinstance(value, (int, float, str)):
+            return value
 
         elif isinstance(value, Config):
             return {
